@@ -44,6 +44,7 @@ class Clock(object):
 
 _env = None
 _ORIG = {}
+SHARED_FLAGS = {}      # per simulated process: share group -> the caller's flags dict
 
 
 def env():
@@ -100,6 +101,7 @@ def reset_universe():
     del sys.modules[name]
   importlib.invalidate_caches()
   _env = None
+  SHARED_FLAGS.clear()
   return env()
 
 
@@ -138,7 +140,11 @@ def do_compile(req, pred, rules=None, program=None):
     if program is None:
       if rules is None:
         rules = do_parse(req)
-      program = E['universe'].LogicaProgram(rules, user_flags=req.get('flags') or None)
+      flags = req.get('flags') or None
+      if flags and req.get('share_flags'):
+        # the caller keeps ONE dict of flags and hands it to every program it compiles
+        flags = SHARED_FLAGS.setdefault(req['share_flags'], dict(flags))
+      program = E['universe'].LogicaProgram(rules, user_flags=flags)
     sql = program.FormattedPredicateSql(pred)
     return snapshot_execution(sql, program.execution), rules, program
   except (E['parse'].ParsingException, E['rule_translate'].RuleCompileException,
@@ -667,11 +673,13 @@ def gen_request(r, scratch, idx, kind=None):
             'E(1); E(2); E(5);\nG(x) :- E(x), x > 1;\nT(x + 1) :- G(x);\n')
     preds = ['T', 'G']
   elif kind == 'flags':
-    text = ('@Engine("sqlite");\n@DefineFlag("limit", "3");\n@DefineFlag("name", "x${limit}");\n'
+    tag = r.choice(['alpha', 'beta', 'gamma', 'delta']) + str(r.randint(0, 99))
+    text = ('@Engine("sqlite");\n@DefineFlag("limit", "%d");\n@DefineFlag("name", "x${limit}");\n' % r.randint(2, 6) +
+            '@DefineFlag("tag", "%s");\n' % tag +
             'E(1); E(2); E(5); E(7);\nT(x) :- E(x), x < ToInt64(FlagValue("limit"));\n'
-            'N(FlagValue("name"));\n')
+            'N(FlagValue("name"));\nG(FlagValue("tag") ++ "_events");\n')
     flags = {'limit': str(r.randint(0, 9))} if r.random() < 0.7 else None
-    preds = ['T', 'N']
+    preds = ['T', 'N', 'G']
   else:
     bad = True
     which = r.choice(['parse', 'unbound', 'functor', 'type', 'undefined'])
@@ -758,6 +766,13 @@ def build_pool(r, scratch, files, tier, procs=None, part=None):
     if q['kind'] == 'flags':
       # the same text under other user flags is another request; both live in one history
       pool.append(dict(q, flags={'limit': str(r.randint(0, 9)), 'name': r.choice(['n', 'm${limit}'])}))
+      if q['flags'] and r.random() < 0.7:
+        # another program with its own flag defaults, compiled with the caller's SAME flags dict
+        q['share_flags'] = 'g%d' % i
+        q2 = gen_request(r, scratch, i + 50, kind='flags')
+        q2['flags'] = dict(q['flags'])
+        q2['share_flags'] = q['share_flags']
+        pool.append(q2)
   if r.random() < 0.4:
     # a pool that certainly has a program switching the experimental syntax on and one that
     # only parses with it
@@ -887,7 +902,7 @@ class Oracle(object):
 
   def req(self, pi):
     q = self.pool[pi]
-    return {'main': q['main'], 'root': q['root'], 'cwd': q['cwd'], 'flags': q['flags']}
+    return {'main': q['main'], 'root': q['root'], 'cwd': q['cwd'], 'flags': q['flags'], 'share_flags': q.get('share_flags')}
 
   def pristine(self, which, mode, pi, pred, parser=None):
     k = (which, mode, pi, pred, parser)
@@ -978,7 +993,7 @@ def freeze_programs(pool, used):
     if i not in used:
       out.append({'kind': 'unused', 'main': '', 'root': None, 'cwd': None, 'flags': None, 'preds': [], 'bad': False})
       continue
-    q2 = {k: q[k] for k in ('kind', 'main', 'root', 'cwd', 'flags', 'preds', 'bad')}
+    q2 = {k: q.get(k) for k in ('kind', 'main', 'root', 'cwd', 'flags', 'preds', 'bad', 'share_flags')}
     if q.get('file'):
       q2['file'] = q['file']
     if q['root']:
